@@ -13,6 +13,7 @@ RULE = (
     "medium stream, byte-at-a-time, cuts inside the greeting; seeded random partitions of long streams. "
     "Non-trivial: the implementation decoded at least one item. Each case ends with the same stream fed in ONE "
     "read to a fresh decoder: the Spec oracle compares the two item lists of the IMPLEMENTATION."
+    " Family socket-yieldy (engine world): after the handshake the peer's pipe becomes a COOPERATIVE transport (`yieldy p k chunk`: at most `chunk` bytes per read, after every k reads that returned data it wakes the reader and answers Pending although more data is there, as a tokio resource does when the task's budget is used up); three small messages, or a 20000-byte frame (larger than the reader's buffer) followed by another message, are delivered exactly as over an ordinary transport; a second peer over an ordinary transport follows."
 )
 ASSUMPTIONS = ["FramedRead2 is modelled as: after every read, decode is called until it returns None (checked by the world engine for real sockets)"]
 TRUSTED = ["asynchronous-codec FramedRead2 buffer handling (modelled, exercised for real by the harness)"]
@@ -117,6 +118,7 @@ def cases(tier, rng):
         cuts = sorted(set(rng.randrange(1, len(s)) for _ in range(ncuts)))
         out.append(chunk_case(f"long#{i}", s, cuts, ["long-random"]))
     out += handover_cases(tier)
+    out += yieldy_cases(tier)
     return out
 
 
@@ -185,11 +187,76 @@ def handover_cases(tier):
     return out
 
 
+def yieldy_cases(tier):
+    """SOCKET level — a COOPERATIVE transport: reads come in pieces of `chunk` bytes and, after every k reads that returned
+    data, the transport wakes the reader and answers Pending although more data is there (a tokio resource whose task
+    has used up its budget, any in-memory transport that yields).  Such a schedule is just another way of splitting the
+    stream into reads: the socket delivers the same messages — including a frame larger than the reader's buffer whose
+    reads are interrupted by a yield."""
+    from vlib import worldgen as wg
+
+    out = []
+    n = 0
+    small = [[b"hello", b"", b"w" * 5], [b"L" * 20], [b"z"]]
+    big = [[b"B", ("gen", 20000, 7)], [b"after"]]
+    for t, pt in HAND_PEER.items():
+        if t in ("PUB", "REQ"):
+            continue
+        for k, chunk, msgs in ((1, 2, small), (1, 5, small), (2, 1, small), (3, 3, small), (1, 64, small), (1, 4096, big), (2, 3000, big),
+                               (1, 8192, big)):
+            sc = wg.Script()
+            sc.sock(1, t)
+            sc.attach(1, 1, pt, b"p1")
+            sc.attach(1, 2, pt, b"p2")
+            sc.add(f"yieldy 1 {k} {chunk}")
+            wire = []
+            for m in msgs:
+                m = ([b""] + m) if t == "REP" else m
+                if t == "XPUB":
+                    m = [b"\x01" + (m[0] if isinstance(m[0], bytes) else b"")] + m[1:]
+                wire.append(m)
+            sc.add("reveal 1 " + "+".join(wg.wire_tok(m) for m in wire))
+            futs = []
+            for _ in wire:
+                g = sc.fut()
+                sc.add(f"recv {g} 1", f"poll {g}", f"drop {g}")
+                futs.append(g)
+            # the other peer, over an ordinary transport, afterwards
+            tail = [b"", b"tail"] if t == "REP" else [b"\x01tail"] if t == "XPUB" else [b"tail"]
+            sc.reveal_msg(2, tail)
+            g = sc.fut()
+            sc.add(f"recv {g} 1", f"poll {g}", f"drop {g}")
+            c = sc.case(f"yieldy-{t}-{k}-{chunk}#{n}", ["socket-yieldy"])
+            want = []
+            for m in wire:
+                want.append({"REP": m[1:], "ROUTER": [b"p1"] + m}.get(t, m))
+            c.expect = ("yieldy", futs, want)
+            out.append(c)
+            n += 1
+    return out
+
+
+def yieldy_oracle(case, lines):
+    from vlib import worldgen as wg
+
+    res = list(zip(case.ops, lines[1:]))
+    _, futs, want = case.expect
+    for g, m in zip(futs, want):
+        r = [l for op, l in res if op == f"poll {g}"][-1]
+        w = "ready ok M[" + wg.show_frames(m) + "]"
+        if r != w:
+            return (f"over a transport that yields in the middle of available data recv answered {r[:80]} — every byte of "
+                    f"{w[:80]} had arrived: what is decoded must not depend on how the stream was cut into reads")
+    return None
+
+
 def handover_oracle(case, lines):
     from vlib import worldgen as wg
 
     if any(l.startswith(("PANIC", "ABORT", "TIMEOUT")) for l in lines):
         return "panic/abort"
+    if case.expect[0] == "yieldy":
+        return yieldy_oracle(case, lines)
     res = list(zip(case.ops, lines[1:]))
     if case.expect[0] == "wire":
         w = [l for op, l in res if op == "wire 1"][-1]
